@@ -31,8 +31,8 @@ NoObs == [err |-> TRUE]
 
 \* which predicates are evaluated for runs generated for property p
 PredsOf(p) ==
-    CASE p = "C02" -> {"C02_NothingInvented", "C02_OnlyVisibleText", "C02_OrderKeptOnce"}
-      [] p = "C03" -> {"C03_ParaAllOrNothing"}
+    CASE p = "C02" -> {"C02_NothingInvented", "C02_OnlyVisibleText", "C02_OrderKeptOnce", "C02_BlockTextsOnceInOrder"}
+      [] p = "C03" -> {"C03_ParaAllOrNothing", "C03_BlocksNeverSplit", "C03_TextFlagsFollowBlocks"}
       [] p = "C04" -> {"C04_NoLeakInText", "C04_NoLeakInHtml"}
       [] p = "C05" -> {"C05_NoScriptStyleElements", "C05_NoHandlers", "C05_NoIdClassStyle", "C05_NoForeignData"}
       [] p = "C07" -> {"C07_ChainsPreserved", "C07_TableWhole", "C07_TagPairContentIffEnclosesContent", "C07_TagsBalanced"}
@@ -43,7 +43,8 @@ PredsOf(p) ==
 
 \* predicates evaluated on the hook-recorded element lists (action Filters), not on the observation
 ElementListPreds == {"C07_TagPairContentIffEnclosesContent", "C07_TagsBalanced", "C08_FilterOrder",
-                     "C08_RelevantFollowsText", "C08_LeadImagePromotesAtMostOne"}
+                     "C08_RelevantFollowsText", "C08_LeadImagePromotesAtMostOne",
+                     "C03_BlocksNeverSplit", "C03_TextFlagsFollowBlocks", "C02_BlockTextsOnceInOrder"}
 
 Holds(name, s, o) ==
     CASE name = "C02_NothingInvented"       -> C02_NothingInvented(s, o)
@@ -122,6 +123,35 @@ Filters == /\ IsEvent("Filters")
                         PrintT(<<"@@DRIFT", ToJson([run |-> run, what |-> "document filters differ from DocFilters.tla"])>>)
            /\ UNCHANGED <<pc, run, prop, src, obs>>
 
+\* the text blocks after every text filter of the last pass, as recorded by the hooks, checked against
+\* spec/TextBlocks.tla: no filter splits a block or shuffles texts, ApplyToModel copies the block flags
+TB == INSTANCE TextBlocks
+BlockFailures(e) ==
+    LET n == Len(e.steps) IN
+    (IF \E i \in 1..n : ~TB!WellFormed(e.steps[i].blocks) THEN {"C02_BlockTextsOnceInOrder"} ELSE {})
+    \cup (IF \E i \in 1..(n - 1) : TB!WellFormed(e.steps[i].blocks) /\ ~TB!Covers(e.steps[i].blocks, e.steps[i + 1].blocks)
+          THEN {"C03_BlocksNeverSplit"} ELSE {})
+    \cup (IF n > 0 /\ \E t \in 1..Len(e.flags) : e.flags[t] # TB!TextFlag(e.steps[n].blocks, t - 1)
+          THEN {"C03_TextFlagsFollowBlocks"} ELSE {})
+
+PipelineNames == <<"Start", "Classification complete", "Ignore strictly not content blocks",
+                   "Cross headings SimilarSiblingContentExpansion", "Mixed tags SimilarSiblingContentExpansion",
+                   "HeadingFusion", "BlockProximityFusion for distance=1", "BlockFilter keep title",
+                   "BlockProximityFusion for same level content-only", "Keep largest block", "Expand title to content">>
+
+Blocks == /\ IsEvent("Blocks")
+          /\ pc = "called"
+          /\ Trace[l].run = run
+          /\ LET e == Trace[l]
+                 b == {n \in BlockFailures(e) : \E q \in PredsOf(prop) : q = n}
+             IN  /\ bad' = bad \cup b
+                 /\ \A name \in b : PrintT(<<"@@BAD", ToJson([run |-> run, inv |-> name, class |-> "text-blocks"])>>)
+                 /\ (Len(e.steps) < Len(PipelineNames)
+                       \/ \E i \in 1..Len(PipelineNames) : e.steps[i].name # PipelineNames[i]) =>
+                       PrintT(<<"@@DRIFT", ToJson([run |-> run, what |-> "text filter pipeline differs from the recorded order",
+                                                   names |-> [i \in 1..Len(e.steps) |-> e.steps[i].name]])>>)
+          /\ UNCHANGED <<pc, run, prop, src, obs>>
+
 \* the call did not return a result: not a behaviour of a total machine
 Crash == /\ (IsEvent("Panic") \/ IsEvent("Hang"))
          /\ pc = "called"
@@ -134,7 +164,7 @@ SkipRun == /\ IsEvent("Skip")
            /\ pc \in {"idle", "returned", "crashed"}
            /\ UNCHANGED <<pc, run, prop, src, obs, bad>>
 
-Next == Call \/ Filters \/ Return \/ Crash \/ SkipRun
+Next == Call \/ Filters \/ Blocks \/ Return \/ Crash \/ SkipRun
 
 TraceSpec == Init /\ [][Next]_vars
 
